@@ -62,6 +62,29 @@ def run(chk):
         for c in cases:
             lines.append(c.line(engine='interp'))
         jit_lines = [c.line(engine='jit', kind='raw') for c in cases if not any(c.prog[k] in (0x61, 0x69, 0x71, 0x79) and False for k in range(0, len(c.prog), 8))]
+        # every VM kind under the JIT and the interpreter: the context probes of C09 (the metadata buffer is read and compared afterwards)
+        from checks import C09
+        from checks.interp_common import Case
+        for kind in ('mbuff', 'raw', 'nodata'):
+            for ln in (0, 8, 64):
+                pk = bytes((3 * i + 5) & 255 for i in range(ln))
+                for name, prog in C09.probes():
+                    if name.startswith('mbuff-') and kind != 'mbuff':
+                        continue
+                    if name in ('r1', 'others-zero-or-unspecified'):
+                        continue
+                    c = Case(prog, mem=pk, mbuff=bytes(range(16)) if kind == 'mbuff' else b'', fam=name)
+                    if kind == 'nodata' or (ln == 0 and name.startswith('ld')):
+                        lines.append(c.line(engine='interp', kind=kind))
+                    else:
+                        jit_lines.append(c.line(engine='jit', kind=kind))
+        for (d, e) in ((0, 8), (0x40, 0x50), (24, 8)):
+            for ln in (8, 64):
+                pk = bytes((7 * i + 1) & 255 for i in range(ln))
+                for name, prog in C09.fixed_probes(d, e):
+                    if name == 'fixed-start':
+                        continue
+                    jit_lines.append(Case(prog, mem=pk, fam=name).line(engine='jit', kind='fixed') + ' d=%d e=%d reps=1' % (d, e))
         # assembler: texts obtained from the disassembler of valid programs, and mangled variants
         dis = vlib.harness_run(b_std, ['disasm %s' % c.prog.hex() for c in cases[:400]])
         texts = []
